@@ -627,9 +627,10 @@ finish:
 
 	nni_mtx_unlock(&s->mtx);
 
-	// make sure the response is freshly initialized
+	// make sure the response is freshly initialized (the version is left
+	// alone: it is still the request's, which handlers such as the
+	// websocket upgrade need to see; the response's is set when we write it)
 	nni_http_res_reset(nni_http_conn_res(sc->conn));
-	nni_http_set_version(sc->conn, NNG_HTTP_VERSION_1_1);
 	nni_http_set_status(sc->conn, 0, NULL);
 
 	h->cb(sc->conn, h->data, &sc->cbaio);
@@ -686,6 +687,8 @@ http_sconn_cbdone(void *arg)
 		} else if (nni_http_is_error(sc->conn)) {
 			(void) nni_http_server_error(s, sc->conn);
 		}
+		// (the response is ours, whatever version the request claimed)
+		nni_http_set_version(sc->conn, NNG_HTTP_VERSION_1_1);
 		nni_http_write_res(sc->conn, &sc->txaio);
 	} else if (sc->close) {
 		http_sconn_close(sc);
